@@ -57,8 +57,6 @@ func suiteAlloc(args []string) {
 	rep.Rule = fmt.Sprintf("one evaluation = one Decode call measured with runtime.MemStats.TotalAlloc; inputs: valid messages and every item header of them with its length replaced by 2^16, 2^20, 2^24, 2^31, 2^32-1 (plus truncations of those); bound: %d*len + %d; non-trivial = a planted length", allocPerByte, allocConst)
 	debug.SetGCPercent(-1)
 	defer debug.SetGCPercent(100)
-	// an upper limit on what a regression can take down with it
-	debug.SetMemoryLimit(3 << 30)
 	planted := []uint32{1 << 16, 1 << 20, 1 << 24, 1 << 31, 0xffffffff, 0xfffffff8}
 	worst := 0.0
 	var worstCase map[string]interface{}
@@ -101,6 +99,39 @@ func suiteAlloc(args []string) {
 					check(tn, m, fmt.Sprintf("skipped item with length %#x appended inside Message Extension at offset %d", pl, it.off))
 					rep.Nontrivial++
 					rep.Distribution["planted:skip"]++
+				}
+			}
+		}
+		// two lengths lying together: a string / byte string and its enclosing structure(s)
+		for _, it := range all {
+			if it.typ != 7 && it.typ != 8 {
+				continue
+			}
+			var anc []*item
+			for _, a := range all {
+				if a.typ == 1 && a.off < it.off && a.end >= it.end {
+					anc = append(anc, a)
+				}
+			}
+			if len(anc) == 0 {
+				continue
+			}
+			parent := anc[len(anc)-1]
+			for _, pair := range [][2]uint32{{1 << 29, 1 << 28}, {0x7fffffff, 0x7ffffff0}, {0xfffffff8, 0xfffffff0}, {1 << 24, 1<<24 - 8}} {
+				for variant := 0; variant < 2; variant++ {
+					m := append([]byte(nil), b...)
+					binary.BigEndian.PutUint32(m[it.off+4:], pair[1])
+					if variant == 0 {
+						binary.BigEndian.PutUint32(m[parent.off+4:], pair[0])
+					} else {
+						for _, a := range anc {
+							binary.BigEndian.PutUint32(m[a.off+4:], pair[0])
+						}
+					}
+					check(tn, m, fmt.Sprintf("item at offset %d declares %#x and its enclosing structure(s) declare %#x", it.off, pair[1], pair[0]))
+					check(tn, m[:it.hdrEnd], "the same, cut right after the item header")
+					rep.Nontrivial++
+					rep.Distribution["planted:pair"]++
 				}
 			}
 		}
